@@ -208,9 +208,6 @@ func Oracle(tr *udpx.Trace, unit string, limitStrict int) (string, []*engine.Fin
 			}
 		}
 	}
-	if len(tr.Recovered) > 0 {
-		add("recovered-panic", "%v", tr.Recovered)
-	}
 	return obs, fs
 }
 
@@ -266,7 +263,7 @@ func twoListeners(i int, ops []udpx.Op) *engine.Scenario {
 		udpx.Run(udpx.Config{Keys: udpx.DefaultKeys(), NatTimeout: natTimeout, Listeners: 2}, ops, tr)
 	}
 	sc.Check = func(x *vrt.Exec) (string, bool, []*engine.Finding) {
-		fs := hk.Generic(x, hk.Opts{Leaks: true, Races: true})
+		fs := hk.Generic(x, hk.Opts{})
 		if len(fs) > 0 {
 			return "generic", true, fs
 		}
@@ -299,12 +296,18 @@ func twoListeners(i int, ops []udpx.Op) *engine.Scenario {
 				}
 			}
 		}
-		if len(tr.Recovered) > 0 {
-			fs = append(fs, &engine.Finding{Sig: "recovered-panic", Msg: fmt.Sprint(tr.Recovered)})
-		}
 		return obs, true, fs
 	}
 	return sc
+}
+
+// TwoListenerScenarios is used by C19 (race monitor on the same scenarios).
+func TwoListenerScenarios() []*engine.Scenario {
+	var out []*engine.Scenario
+	for i, in := range twoListenerInputs() {
+		out = append(out, twoListeners(i, in))
+	}
+	return out
 }
 
 func twoListenerInputs() [][]udpx.Op {
@@ -321,7 +324,7 @@ func scenario(unit string, ops []udpx.Op, limitStrict int) *engine.Scenario {
 		udpx.Run(udpx.Config{Keys: udpx.DefaultKeys(), NatTimeout: natTimeout}, ops, tr)
 	}
 	sc.Check = func(x *vrt.Exec) (string, bool, []*engine.Finding) {
-		fs := hk.Generic(x, hk.Opts{Leaks: true})
+		fs := hk.Generic(x, hk.Opts{})
 		if len(fs) > 0 {
 			return "generic", true, fs
 		}
